@@ -1,11 +1,11 @@
 SPECIFICATION Spec
-CONSTANTS Contracts <- McContracts
+CONSTANTS Contracts <- McOne
  Sender = "U"
- Creators = {}
+ Creators = {"U", "A"}
  Slots <- McSlots
- InitBal <- McInitBal
- InitStor <- McInitStor
- Kinds <- McKinds
+ InitBal <- McInitBal1C
+ InitStor <- McInitStor1
+ Kinds <- McKindsC
  Vals = {1}
  SendVals = {0, 1}
  SuicideTo = {"U"}
